@@ -154,18 +154,57 @@ def test_on_name(test: ast.AST) -> Optional[Tuple[str, bool]]:
     return None
 
 
+def eval_flag_test(test: ast.AST, flag: str, value: bool) -> Optional[bool]:
+    """Evaluate a boolean expression that mentions only `flag` (and boolean constants) for a known
+    value of the flag; None if the expression involves anything else."""
+    if isinstance(test, ast.Name):
+        return value if test.id == flag else None
+    if isinstance(test, ast.Constant) and isinstance(test.value, bool):
+        return test.value
+    if isinstance(test, ast.UnaryOp) and isinstance(test.op, ast.Not):
+        r = eval_flag_test(test.operand, flag, value)
+        return None if r is None else (not r)
+    if isinstance(test, ast.BoolOp):
+        vals = [eval_flag_test(v, flag, value) for v in test.values]
+        if isinstance(test.op, ast.And):
+            if any(v is False for v in vals):
+                return False
+            return None if any(v is None for v in vals) else True
+        if any(v is True for v in vals):
+            return True
+        return None if any(v is None for v in vals) else False
+    r = test_on_name(test)
+    if r and r[0] == flag:
+        return value == r[1]
+    return None
+
+
+def flag_only_test(test: ast.AST) -> Optional[str]:
+    """the single name a pure flag expression mentions"""
+    names = {n.id for n in ast.walk(test) if isinstance(n, ast.Name)}
+    if len(names) != 1:
+        return None
+    nm = next(iter(names))
+    if eval_flag_test(test, nm, True) is None or eval_flag_test(test, nm, False) is None:
+        return None
+    return nm
+
+
 def find_warn_flag(fn: ast.AST, category="ConvergenceWarning") -> Optional[Tuple[str, ast.If]]:
     """The boolean local tested by the `if` that guards the warning call (identified by role, not by name)."""
     for n in own_nodes(fn):
         if isinstance(n, ast.If):
-            r = test_on_name(n.test)
-            if r is None:
+            name = flag_only_test(n.test)
+            if name is None:
                 continue
-            name, positive = r
-            guarded = n.orelse if positive else n.body
-            if any(is_warn_call(s, category) for s in guarded if not isinstance(s, (ast.FunctionDef, ast.ClassDef))):
-                return name, n
+            for blk in (n.body, n.orelse):
+                if any(is_warn_call(s, category) for s in blk if not isinstance(s, (ast.FunctionDef, ast.ClassDef))):
+                    return name, n
     return None
+
+
+def has_warn_anywhere(fn: ast.AST, category="ConvergenceWarning") -> bool:
+    return any(isinstance(n, ast.Call) and is_warn_call(n, category) for n in own_nodes(fn))
 
 
 def bool_const_assign(s: ast.AST, flag: str) -> Optional[bool]:
@@ -228,12 +267,10 @@ def flag_typestate(cfg: CFG, flag: Optional[str], category="ConvergenceWarning",
         for succ, lab in node.succ:
             if lab == "exc":
                 continue
-            if node.kind == "test" and flag is not None and isinstance(s, (ast.If, ast.While)):
-                r = test_on_name(s.test)
-                if r and r[0] == flag and fv in "TF":
-                    val = (fv == "T") == r[1]
-                    if lab != val:
-                        continue
+            if node.kind == "test" and flag is not None and isinstance(s, (ast.If, ast.While)) and fv in "TF":
+                val = eval_flag_test(s.test, flag, fv == "T")
+                if val is not None and lab != val:
+                    continue
             if succ is cfg.exit and node.kind != "return":
                 # falling off the end: implicit `return None`
                 out.append(ReturnState(node, fv, warned, looped, key))
